@@ -358,8 +358,34 @@ func (sl *StringLiteral) WriteTo(cw *CodeWriter) {
 	cw.AddMapping(sl.Token.Start)
 	// TODO: keep the original string token (' or ")
 	cw.WriteRune('"')
-	cw.WriteString(sl.Value)
+	cw.WriteString(escapeDoubleQuotes(sl.Value))
 	cw.WriteRune('"')
+}
+
+// escapeDoubleQuotes prepares a string token literal (escape sequences as
+// written in the source) for output between double quotes: escape sequences are
+// copied, and double quotes that were plain characters of a single-quoted
+// string are escaped.
+func escapeDoubleQuotes(value string) string {
+	if !strings.Contains(value, "\"") {
+		return value
+	}
+	var result strings.Builder
+	for i := 0; i < len(value); i++ {
+		switch value[i] {
+		case '\\':
+			result.WriteByte(value[i])
+			if i+1 < len(value) {
+				i++
+				result.WriteByte(value[i])
+			}
+		case '"':
+			result.WriteString("\\\"")
+		default:
+			result.WriteByte(value[i])
+		}
+	}
+	return result.String()
 }
 
 func (sl *StringLiteral) Precedence() int {
